@@ -294,6 +294,19 @@ def p_zip_longest(I, n, pos, kw):
     return I.unknown("prim:itertools.zip_longest", n)
 
 
+@prim("builtins.next")
+def p_next(I, n, pos, kw):
+    # next(<generator over a concrete list with decided conditions>[, default]): the comprehension is evaluated eagerly
+    v = pos[0]
+    if isinstance(v, Seq):
+        if v.items:
+            return v.items[0]
+        if len(pos) > 1:
+            return pos[1]
+        I.event("raise", n, exc="StopIteration")
+    return I.unknown("prim:builtins.next", n)
+
+
 @prim("builtins.zip")
 def p_zip(I, n, pos, kw):
     return ObjV(None, dict(items=list(pos)), tag="zip")
@@ -858,6 +871,60 @@ def p_sort(I, n, pos, kw):
         # column-wise sort of a 2-d array: each column becomes its own sorted multiset — rows are no longer points
         I.event("sort-columns", n, arg=v)
         return Arr(v.axes, sym.Opq("colsorted", (v.elem,), None), "nd")
+    if isinstance(v, Seq) and I.cfg.flags.get("order_model") is not None:
+        # a concrete list whose comparisons are decided by the ordering class: sort it (stable insertion sort; keys are
+        # scalars or lists of scalars compared lexicographically)
+        keyf = kw.get("key")
+        rv = kw.get("reverse")
+        if rv is not None and not isinstance(rv, NoneV) and not (isinstance(rv, Sc) and rv.e in (sym.TRUE, sym.FALSE)):
+            return I.unknown("sorted-reverse-not-constant", n)
+        rev = isinstance(rv, Sc) and rv.e == sym.TRUE
+        keys = []
+        for x in v.items:
+            kx = x if keyf is None or isinstance(keyf, NoneV) else I.apply(keyf, [x], {}, n, {})
+            comps = kx.items if isinstance(kx, Seq) else [kx]
+            if not all(isinstance(c, Sc) and c.e is not None for c in comps):
+                return I.unknown("sorted-key-not-scalar", n)
+            keys.append([c.e for c in comps])
+
+        def less(ka, kb):
+            for a_, b_ in zip(ka, kb):
+                lt = I.decide(sym.Cmp("<", a_, b_))
+                if lt is True:
+                    return True
+                eq = I.decide(sym.Cmp("==", a_, b_))
+                if lt is None or eq is None:
+                    return None
+                if not eq:
+                    return False
+            return False
+        order = []
+        for i_ in range(len(v.items)):
+            pos_ = len(order)
+            for j_, o_ in enumerate(order):
+                l_ = less(keys[i_], keys[o_])
+                if l_ is None:
+                    return I.unknown("sorted-undecided-comparison", n)
+                if l_:
+                    pos_ = j_
+                    break
+            order.insert(pos_, i_)
+        out = [v.items[i_] for i_ in order]
+        if rev:
+            # reverse=True keeps equal elements in their original order: sort by the negated comparison instead
+            order = []
+            for i_ in range(len(v.items)):
+                pos_ = len(order)
+                for j_, o_ in enumerate(order):
+                    l_ = less(keys[o_], keys[i_])
+                    if l_ is None:
+                        return I.unknown("sorted-undecided-comparison", n)
+                    if l_:
+                        pos_ = j_
+                        break
+                order.insert(pos_, i_)
+            out = [v.items[i_] for i_ in order]
+        return Seq(out, "list")
     if "key" in kw and not isinstance(kw["key"], NoneV):
         return I.unknown("sorted-with-key", n, (generic_elem(v),))
     if isinstance(v, ObjV) and v.tag == "bucket":
@@ -1415,6 +1482,41 @@ def m_append(I, n, recv, pos, kw):
         I.event("bucket-append", n, base=recv.attrs["base"], index=recv.attrs["index"], value=pos[0])
         return NoneV()
     return I.unknown("append-on-" + type(recv).__name__, n)
+
+
+@method("sort")
+def m_sort_inplace(I, n, recv, pos, kw):
+    if isinstance(recv, Seq) and recv.kind == "list" and not hasattr(recv, "appended") and I.cfg.flags.get("order_model") is not None:
+        I.log.append(dict(kind="ext-call", node=n, fi=None, path=[], reach=sym.TRUE, target="builtins.sorted", pos=[recv], kwargs=kw,
+                          loops=[]))
+        r = p_sort(I, n, [recv], kw)
+        if isinstance(r, Seq):
+            recv.items[:] = r.items
+            return NoneV()
+    return I.unknown("method:sort", n)
+
+
+@method("pop")
+def m_pop(I, n, recv, pos, kw):
+    if isinstance(recv, Seq) and recv.kind == "list" and not hasattr(recv, "appended"):
+        k = -1
+        if pos:
+            if not (isinstance(pos[0], Sc) and pos[0].e is not None and pos[0].e[0] == "num" and float(pos[0].e[1]).is_integer()):
+                return I.unknown("pop-at-unknown-position", n)
+            k = int(pos[0].e[1])
+        if -len(recv.items) <= k < len(recv.items):
+            return recv.items.pop(k)
+        return I.unknown("pop-from-empty-list", n)
+    return I.unknown("pop-on-" + type(recv).__name__, n)
+
+
+@method("insert")
+def m_insert(I, n, recv, pos, kw):
+    if isinstance(recv, Seq) and recv.kind == "list" and not hasattr(recv, "appended") and len(pos) == 2 \
+            and isinstance(pos[0], Sc) and pos[0].e is not None and pos[0].e[0] == "num" and float(pos[0].e[1]).is_integer():
+        recv.items.insert(int(pos[0].e[1]), pos[1])
+        return NoneV()
+    return I.unknown("insert-on-" + type(recv).__name__, n)
 
 
 @method("extend")
